@@ -16,6 +16,8 @@ func corpusJSON() []*modSpec {
 	return []*modSpec{
 		mk("json-union-fields", "package models\n\nimport \"time\"\n\ntype U interface{ isU() }\ntype A struct {\n\tX int `json:\"x\"`\n\tS []string\n}\ntype B struct{ T time.Time }\ntype N int\ntype L []int\n\nfunc (A) isU() {}\nfunc (B) isU() {}\nfunc (N) isU() {}\nfunc (L) isU() {}\n\ntype S struct {\n\tV U `json:\"v\"`\n\tHidden int `json:\"-\"`\n\tOmit string `json:\"omit,omitempty\"`\n\tunexp int\n\tW U\n\tName string\n}\n\ntype List []U\ntype Dict map[string]U\ntype ByID map[int]U\n\ntype Outer struct {\n\tInner S\n\tItems List\n\tD Dict\n\tI ByID\n\tMany []S\n}\n"),
 		mk("json-gomacro-ignored-sibling", "package models\n\ntype Shape interface{ isShape() }\ntype Circle struct{ R int }\ntype Square struct{ S int }\n\nfunc (Circle) isShape() {}\nfunc (Square) isShape() {}\n\ntype Drawing struct {\n\tMain Shape\n\tTitle string `json:\"title\"`\n\tRevision int `gomacro:\"ignore\"`\n\tAuthor string `json:\"author\" gomacro:\"ignore\"`\n\tNotes []string `gomacro:\"ignore\" json:\"notes,omitempty\"`\n\tSecret string `json:\"-\"`\n}\n"),
+		mk("json-unions-sharing-their-first-letter", "package models\n\ntype Shape interface{ isShape() }\ntype Style interface{ isStyle() }\ntype Circle struct{ R int }\ntype Square struct{ S int }\ntype Bold struct{ W int }\n\nfunc (Circle) isShape() {}\nfunc (Square) isShape() {}\nfunc (Circle) isStyle() {}\nfunc (Bold) isStyle() {}\n\ntype Drawing struct {\n\tShape Shape\n\tStyle Style\n}\n"),
+		mk("json-embedded-with-option-only-tag", "package models\n\ntype Shape interface{ isShape() }\ntype Circle struct{ R int }\n\nfunc (Circle) isShape() {}\n\ntype Meta struct {\n\tAuthor string\n\tRev int `json:\"rev\"`\n}\n\ntype WithUnion struct {\n\tInner Shape\n\tNote string\n}\n\ntype Doc struct {\n\tMeta `json:\",omitempty\"`\n\tTitle string\n\tMain Shape\n}\n\ntype Wrapper struct {\n\tWithUnion `json:\",omitempty\"`\n\tTitle string\n}\n\ntype Plain struct {\n\tMeta\n\tMain Shape\n}\n"),
 		mk("json-shared-member", "package models\n\ntype U1 interface{ is1() }\ntype U2 interface{ is2() }\ntype A struct{ X int }\ntype B struct{ Y string }\n\nfunc (A) is1() {}\nfunc (A) is2() {}\nfunc (B) is2() {}\n\ntype S struct {\n\tV1 U1\n\tV2 U2\n\tL []int\n\tM map[string]A\n}\n"),
 		mk("json-fixed-array-of-unions", "package models\n\ntype U interface{ isU() }\ntype A struct{ X int }\nfunc (A) isU() {}\n\ntype Fixed [3]U\n\ntype S struct{ F Fixed }\n"),
 		mk("json-union-behind-pointer", "package models\n\ntype Drawing struct {\n\tName string\n\tTop *Layer\n\tAll []*Layer\n\tByName map[string]*Layer\n}\n",
@@ -67,7 +69,7 @@ func runC02(e *env) {
 		}
 		if r.BuildErr != "" {
 			e.m.count("binary_build_failed")
-			e.m.fail(oracleFailure{What: "source package + generated union wrappers do not build: " + firstLine(r.BuildErr), Input: spec, Got: r.BuildErr, Class: classifyBuildErr(r.BuildErr)})
+			e.m.fail(oracleFailure{What: "source package + generated union wrappers do not build: " + firstLine(r.BuildErr), Input: spec, Got: r.BuildErr, Class: kindClassIfInput(classifyBuildErr(r.BuildErr), obs[i])})
 			continue
 		}
 		if r.RunErr != "" {
@@ -138,3 +140,11 @@ func classifyBuildErr(msg string) string {
 }
 
 func classifyRoundTrip(r binRecord) string { return "" }
+
+// the recorded finding is identified by the shape of the input, not by the compiler's message alone
+func kindClassIfInput(cls string, o *obsResult) string {
+	if strings.HasSuffix(cls, "kind-constant-redeclared") && !inputHasKindCollision(o) {
+		return ""
+	}
+	return cls
+}
